@@ -201,7 +201,24 @@ func (se *SpecEnv) eval(x Expr) Value {
 					return Value{T: ga, Sort: "Int", GoT: types.NewPointer(gv.Type())}
 				}
 			}
-			sfail("& is only supported on package-level variables")
+			// &p.f for a struct-valued field f of a struct pointer p: the embedded object (as ssa.FieldAddr)
+			if y, ok := x.X.(*EField); ok {
+				pv := se.eval(y.X)
+				if pv.GoT != nil {
+					if _, elemT, ok := isStructPtr(pv.GoT); ok {
+						stt := elemT.Underlying().(*types.Struct)
+						for i := 0; i < stt.NumFields(); i++ {
+							f := stt.Field(i)
+							if f.Name() == y.Name {
+								if _, isStruct := f.Type().Underlying().(*types.Struct); isStruct {
+									return Value{T: se.e.embRef(elemT, f.Name(), pv.T), Sort: "Int", GoT: types.NewPointer(f.Type())}
+								}
+							}
+						}
+					}
+				}
+			}
+			sfail("& is only supported on package-level variables and struct-valued fields")
 		}
 		v := se.eval(x.X)
 		switch x.Op {
